@@ -32,14 +32,15 @@ SUB = {
 }
 
 
-def mc_strings(d, name, scopes, userskip=(), invariants=ALL_INV, dump=True, sources=()):
+def mc_strings(d, name, scopes, userskip=(), invariants=ALL_INV, dump=True, sources=(), runs='BC'):
     """scopes: list of (words, maxwords)"""
     sc = ', '.join('[w |-> {%s}, n |-> %d]' % (', '.join(tlc.tla_seq(w) for w in ws), n) for ws, n in scopes)
     defs = ['MCScopes == <<' + sc + '>>',
             'MCSources == {' + ', '.join(tlc.tla_seq(s) for s in sources) + '}',
             'MCUserSkip == {' + ', '.join(tlc.tla_seq(s) for s in userskip) + '}']
     cfg = ['SPECIFICATION Spec', 'CONSTANTS', ' Scopes <- MCScopes',
-           ' Sources <- MCSources', ' UserSkip <- MCUserSkip']
+           ' Sources <- MCSources', ' UserSkip <- MCUserSkip', ' DoB = %s' % ('TRUE' if 'B' in runs else 'FALSE'),
+           ' DoC = %s' % ('TRUE' if 'C' in runs else 'FALSE')]
     cfg += ['INVARIANT ' + i for i in invariants]
     if dump:
         cfg.append('INVARIANT Dump')
@@ -48,10 +49,10 @@ def mc_strings(d, name, scopes, userskip=(), invariants=ALL_INV, dump=True, sour
     tlc.write_mc(d, name, 'Strings', defs, '\n'.join(cfg) + '\n')
 
 
-def explore(chk, label, scopes, userskip=(), invariants=ALL_INV, timeout=900, simulate=None, depth=None, sources=()):
+def explore(chk, label, scopes, userskip=(), invariants=ALL_INV, timeout=900, simulate=None, depth=None, sources=(), runs='BC'):
     """Run TLC over all sources of the scopes [(words, maxwords), ...]; Result.records = experiments."""
     d = tlc.workdir('%s_%s' % (chk.pid, label))
-    mc_strings(d, 'MC', scopes, userskip, invariants, sources=sources)
+    mc_strings(d, 'MC', scopes, userskip, invariants, sources=sources, runs=runs)
     res = tlc.run(d, 'MC', timeout=timeout, simulate=simulate, depth=depth, seed=chk.seed if simulate else None)
     chk.add_tlc(label, res, 'Strings: ' + '; '.join('%d words ^<=%d' % (len(w), n) for w, n in scopes)
                 + (', simulate' if simulate else ''))
@@ -72,6 +73,8 @@ def _cmp_one(args):
     ex = obs.experiment(src, skip)
     diffs = []
     for r in ('A', 'B', 'C'):
+        if rec[r]['o'] == 'none' and not (r == 'C' and rec['A']['o'] != 'ok' and ex['C']['o'] == 'none'):
+            continue            # run not performed by this model configuration
         if ex[r]['o'] != rec[r]['o']:
             diffs.append(r + '.o')
         elif ex[r]['o'] == 'ok':
@@ -111,7 +114,7 @@ def validate(chk, observations, skip=(), label='trace', timeout=900, workers=16)
     defs = ['MCScopes == <<>>', 'MCSources == {}',
             'MCUserSkip == {' + ', '.join(tlc.tla_seq(s) for s in skip) + '}']
     cfg = ('SPECIFICATION TSpec\nCONSTANTS\n Scopes <- MCScopes\n Sources <- MCSources\n'
-           ' UserSkip <- MCUserSkip\nINVARIANT Verdict\nCHECK_DEADLOCK FALSE\n')
+           ' UserSkip <- MCUserSkip\n DoB = TRUE\n DoC = TRUE\nINVARIANT Verdict\nCHECK_DEADLOCK FALSE\n')
     tlc.write_mc(d, 'MCT', 'StringsTrace', defs, cfg)
     res = tlc.run(d, 'MCT', timeout=timeout, workers=workers)
     chk.add_tlc(label, res, 'StringsTrace: %d recorded observations' % len(observations))
@@ -202,9 +205,9 @@ def mutations(rng, docs, per_doc, alphabet):
     return out
 
 
-def standard(chk, scopes, inv, clauses, what, extra_sources=(), sources=(), skip=(), timeout=3000, samples=6):
+def standard(chk, scopes, inv, clauses, what, extra_sources=(), sources=(), skip=(), timeout=3000, samples=6, runs='BC'):
     """TLC exploration of the scopes (MACHINE |= CONTRACT for inv) + replay + trace validation of extras."""
-    res = explore(chk, 'strings', scopes, userskip=skip, invariants=inv, timeout=timeout, sources=sources)
+    res = explore(chk, 'strings', scopes, userskip=skip, invariants=inv, timeout=timeout, sources=sources, runs=runs)
     model_must_hold(chk, res)
     bad = replay(chk, res.records, skip)
     for r in res.records[:samples]:
